@@ -440,12 +440,20 @@ func segDecode(entry int, doc []byte, x any) (err error, pan string) {
 			pan = fmt.Sprintf("%v\n%s", e, stackOfLibrary())
 		}
 	}()
+	// the caller recycles the buffer it passed once the call has returned (no
+	// zero-copy flag is set, so the target owns everything it holds)
+	own := append([]byte(nil), doc...)
+	defer func() {
+		for i := range own {
+			own[i] = '#'
+		}
+	}()
 	switch entry {
 	case 0:
-		err = json.Unmarshal(doc, x)
+		err = json.Unmarshal(own, x)
 	case 1:
 		var rem []byte
-		rem, err = json.Parse(doc, x, 0)
+		rem, err = json.Parse(own, x, 0)
 		if err == nil && len(rem) != 0 {
 			err = fmt.Errorf("trailing data")
 		}
